@@ -7,7 +7,7 @@ Local Open Scope string_scope.
 
 Section RG.
   Variable tn : list call -> res (list tmsg).
-  Variable tns : list call -> res (list string * list emitted).
+  Variable tns : list call -> res (list string * list emitted * option N).
   Variable rd : string -> bool.
   Variable rd_nonempty : bool.
   Variable modifier : list msg -> list msg.
@@ -148,8 +148,8 @@ Section RG.
   Qed.
 
   Inductive task_rel : React.task -> key -> rval -> Prop :=
-  | rel_chat_in : forall ms, task_rel (TChat ms) kChat (RIn ms)
-  | rel_chat_tools : forall o rs d, task_rel (TChat (map tool_msg rs)) kChat (RTools o rs d)
+  | rel_chat_in : forall ms, task_rel (TChat (Ok ms)) kChat (RIn ms)
+  | rel_chat_tools : forall o rr d, task_rel (TChat (res_map (map tool_msg) rr)) kChat (RTools o rr d)
   | rel_tools : forall chunks m, task_rel (TTools m) kTools (RModel chunks m)
   | rel_direct : forall o rs d, rd_nonempty = true -> task_rel (TDirect o) kDirect (RTools o rs d).
 
@@ -164,7 +164,7 @@ End RG.
 (* ---- the main refinement: rd_nonempty is an ordinary variable here (case analysis on it) ---- *)
 Section Refine.
   Variable tn : list call -> res (list tmsg).
-  Variable tns : list call -> res (list string * list emitted).
+  Variable tns : list call -> res (list string * list emitted * option N).
   Variable rd : string -> bool.
   Variable modifier : list msg -> list msg.
   Variable visible : call -> bool.
@@ -221,9 +221,15 @@ Section Refine.
           unfold ls_of in H1. rewrite H1. fin.
         * rewrite calc_chat_end by exact Hc. cbn [nlist_get N.eqb kEND Pos.eqb]. fin.
       + (* chat, the tool messages of the previous round *)
-        change (rexec rdn ?s [kChat] (RTools o rs d)) with (exec_chat modifier md (map tool_msg rs) s).
+        destruct rr as [rs|e|].
+        2:{ change (rexec rdn ?s [kChat] (RTools o (Err e) d)) with ((@Err rval (cToolsBase + e)), s).
+            cbn [fst snd res_map agent_loop]. unfold trace_of, out_of. cbn [fst snd option_map].
+            rewrite out_of_tools_err. fin. }
+        2:{ change (rexec rdn ?s [kChat] (RTools o Panic d)) with ((@Panic rval), s).
+            cbn [fst snd res_map agent_loop]. fin. }
+        change (rexec rdn ?s [kChat] (RTools o (Ok rs) d)) with (exec_chat modifier md (map tool_msg rs) s).
         unfold exec_chat. cbn [rs_script rs_messages rs_rd rs_inputs rs_rounds rs_emits].
-        cbn [agent_loop s_messages s_rd].
+        cbn [res_map agent_loop s_messages s_rd].
         destruct sc as [|[|content calls chunks] sc']; try (fin; fail).
         destruct (delivered md content calls chunks) as [m|] eqn:Hd; [|fin; fail].
         cbn [fst snd].
@@ -231,7 +237,7 @@ Section Refine.
         * rewrite calc_chat_tools by exact Hc. cbn [nlist_get N.eqb kEND kTools Pos.eqb].
           pose proof (IH (S n) (TTools m) kTools (RModel (emitted_chunks md content calls chunks) m)
                          sc' (msgs ++ map tool_msg rs)%list rdid (ins ++ [modifier (msgs ++ map tool_msg rs)])%list rnds (ems ++ [m])%list
-                         (lg ++ [step_entry rval [] [(kChat, RTools o rs d)]])%list Hn' (rel_tools rdn _ _)) as H1.
+                         (lg ++ [step_entry rval [] [(kChat, RTools o (Ok rs) d)]])%list Hn' (rel_tools rdn _ _)) as H1.
           unfold ls_of in H1. rewrite H1. fin.
         * rewrite calc_chat_end by exact Hc. cbn [nlist_get N.eqb kEND Pos.eqb]. fin.
       + (* tools *)
@@ -240,28 +246,28 @@ Section Refine.
         cbn [agent_loop s_messages s_rd].
         destruct (tools_out tn tns md (m_calls m)) as [o|e|] eqn:Et;
           [| cbn [fst snd]; unfold trace_of, out_of; cbn [fst snd option_map]; rewrite out_of_tools_err; fin; fail | fin; fail].
-        destruct (tout_results o) as [results|e|] eqn:Er;
-          [| cbn [fst snd]; unfold trace_of, out_of; cbn [fst snd option_map]; rewrite out_of_tools_err; fin; fail | fin; fail].
-        cbn [fst snd].
+        cbv zeta. cbn [fst snd].
+        set (rr := tout_results o).
+        set (em := match rr with Ok results => emitted_results visible (m_calls m) results | _ => [] end).
         destruct rdn.
         * rewrite calc_tools_branch by reflexivity.
           destruct (rd_call_index rd (m_calls m)) as [ix|] eqn:Eid; cbn [is_some].
           -- cbn [nlist_get N.eqb kEND kDirect Pos.eqb].
-             pose proof (IH (S n) (TDirect o) kDirect (RTools o results true)
+             pose proof (IH (S n) (TDirect o) kDirect (RTools o rr true)
                          sc (msgs ++ [m])%list (Some ix) ins (rnds ++ [m_calls m])%list
-                         (ems ++ emitted_results visible (m_calls m) results)%list
+                         (ems ++ em)%list
                          (lg ++ [step_entry rval [] [(kTools, RModel chunks m)]])%list Hn' (rel_direct true _ _ _ eq_refl)) as H1.
              unfold ls_of in H1. rewrite H1. fin.
           -- cbn [nlist_get N.eqb kEND kChat Pos.eqb].
-             pose proof (IH (S n) (TChat (map tool_msg results)) kChat (RTools o results false)
+             pose proof (IH (S n) (TChat (res_map (map tool_msg) rr)) kChat (RTools o rr false)
                          sc (msgs ++ [m])%list None ins (rnds ++ [m_calls m])%list
-                         (ems ++ emitted_results visible (m_calls m) results)%list
+                         (ems ++ em)%list
                          (lg ++ [step_entry rval [] [(kTools, RModel chunks m)]])%list Hn' (rel_chat_tools true _ _ _)) as H1.
              unfold ls_of in H1. rewrite H1. fin.
         * rewrite calc_tools_edge by reflexivity. cbn [nlist_get N.eqb kEND kChat Pos.eqb is_some].
-          pose proof (IH (S n) (TChat (map tool_msg results)) kChat (RTools o results false)
+          pose proof (IH (S n) (TChat (res_map (map tool_msg) rr)) kChat (RTools o rr false)
                          sc (msgs ++ [m])%list None ins (rnds ++ [m_calls m])%list
-                         (ems ++ emitted_results visible (m_calls m) results)%list
+                         (ems ++ em)%list
                          (lg ++ [step_entry rval [] [(kTools, RModel chunks m)]])%list Hn' (rel_chat_tools false _ _ _)) as H1.
           unfold ls_of in H1. rewrite H1. fin.
       + (* direct_return *)
@@ -269,7 +275,8 @@ Section Refine.
         unfold exec_direct. cbn [rs_script rs_messages rs_rd rs_inputs rs_rounds rs_emits].
         cbn [agent_loop s_messages s_rd].
         destruct rdid as [ix|]; [|fin; fail].
-        destruct (tout_direct ix o) as [r|]; [|fin; fail].
+        destruct (tout_direct ix o) as [[r|]|e|];
+          [| fin; fail | cbn [fst snd]; unfold trace_of, out_of; cbn [fst snd option_map]; rewrite out_of_tools_err; fin; fail | fin; fail].
         cbn [fst snd]. rewrite calc_direct by auto. cbn [nlist_get N.eqb kEND Pos.eqb]. fin.
   Qed.
 End Refine.
@@ -293,7 +300,7 @@ Proof.
   match goal with
   | |- trace_of (iterate _ _ _ _ ?sub _ _ _ _ _) = _ =>
       pose proof (iterate_refines tn tns rd modifier visible checker md max_step sub
-                    rdn (max_steps (react_graph rdn max_step)) 0 (TChat input) kChat (RIn input)
+                    rdn (max_steps (react_graph rdn max_step)) 0 (TChat (Ok input)) kChat (RIn input)
                     script [] None [] [] [] [run_marker rval []] eq_refl (rel_chat_in rdn input)) as H
   end.
   unfold ls_of in H. rewrite tr_pre_nil in H. rewrite max_steps_react in H at 2.
@@ -306,7 +313,7 @@ Local Open Scope string_scope.
 (* ---- the supersteps of the run: one node each, chat and tools alternating ------------------ *)
 Section Supersteps.
   Variable tn : list call -> res (list tmsg).
-  Variable tns : list call -> res (list string * list emitted).
+  Variable tns : list call -> res (list string * list emitted * option N).
   Variable rd : string -> bool.
   Variable rdn : bool.
   Variable modifier : list msg -> list msg.
